@@ -194,6 +194,92 @@ class TreeSpec(Spec):
         return {'atoms': uniq, 'n': n, 'nontrivial': nontriv, 'outcomes': outcomes, 'case': {'tree': hist}}
 
 
+PATH_FORMS = ['abs', 'abs/', 'abs//', 'abs/.', 'pathlib', 'rel', 'rel/', './rel', 'pathlib-rel',
+              'cwd:empty', 'cwd:.', 'cwd:./', 'cwd:pathlib', 'fsroot@cwd=root', 'fsroot@cwd=other',
+              'after-empty-dir', 'after-unrelated-dir/']
+
+
+class PathFormSpec(TreeSpec):
+    """the same trees reached through every spelling of the search path entry: with a trailing separator, as a
+    pathlib.Path, relative to the current directory, as '' / '.' for the current directory, behind another entry that
+    does not provide the name - and the entry '/' which is *not* the current directory (F25)"""
+    title = 'directory trees x dotted names x spelling of the search path entry'
+
+    def __init__(self, name, light=False):
+        TreeSpec.__init__(self, name, 1)
+        self.light = light
+        self.rule = ('all trees of depth 1 over names %r%s x %d entry forms %r x all dotted names of <= %d components over %r; expected = '
+                     'importlib FileFinder on the directory the entry denotes; non-trivial = as for the tree specs' % (
+                         TOP_NAMES, ' whose second name is absent / a module' if light else '', len(PATH_FORMS), PATH_FORMS,
+                         2 if light else 3, LOOKUP))
+
+    def histories(self, stats):
+        for t in gen_dir(1):
+            if self.light and t['b_c'] not in (None, ('mod',)):
+                continue
+            yield tuple(sorted(t.items()))
+
+    def lookup(self):
+        return [n for n in lookup_names() if not self.light or n.count('.') <= 1]
+
+    def run_case(self, hist):
+        import pathlib
+        from xdoctest.utils import util_import
+        atoms = []
+        n = nontriv = 0
+        outcomes = {'found': 0, 'absent': 0}
+        old_cwd = os.getcwd()
+        with harness.scratch_dir('c17f') as base:
+            rootname = 'root-%08x' % (zlib.crc32(repr(hist).encode()) & 0xffffffff)
+            root = os.path.join(base, rootname)
+            empty = os.path.join(base, 'empty')
+            unrelated = os.path.join(base, 'unrelated')
+            other = os.path.join(base, 'elsewhere')
+            for d in (empty, unrelated, other):
+                os.makedirs(d)
+            open(os.path.join(unrelated, 'zzz.py'), 'w').close()
+            materialize(root, hist)
+            try:
+                for form in PATH_FORMS:
+                    cwd = {'rel': base, 'rel/': base, './rel': base, 'pathlib-rel': base, 'fsroot@cwd=other': other}.get(form, root if (
+                        form.startswith('cwd:') or form == 'fsroot@cwd=root') else other)
+                    entries = {
+                        'abs': [root], 'abs/': [root + '/'], 'abs//': [root + '//'], 'abs/.': [root + '/.'], 'pathlib': [pathlib.Path(root)],
+                        'rel': [rootname], 'rel/': [rootname + '/'], './rel': ['./' + rootname], 'pathlib-rel': [pathlib.Path(rootname)],
+                        'cwd:empty': [''], 'cwd:.': ['.'], 'cwd:./': ['./'], 'cwd:pathlib': [pathlib.Path('.')],
+                        'fsroot@cwd=root': ['/'], 'fsroot@cwd=other': ['/'],
+                        'after-empty-dir': [empty, root], 'after-unrelated-dir/': [unrelated + '/', root + '/'],
+                    }[form]
+                    searched = '/' if form.startswith('fsroot') else root
+                    os.chdir(cwd)
+                    importlib.invalidate_caches()
+                    for nm in self.lookup():
+                        n += 1
+                        exp = oracle(searched, nm)
+                        try:
+                            got = util_import.modname_to_modpath(nm, sys_path=list(entries))
+                        except Exception as ex:
+                            atoms.append({'sig': 'pathform:raises:%s:%s' % (form, type(ex).__name__), 'msg': '%s via %r: %r' % (nm, entries, ex)})
+                            continue
+                        outcomes['found' if got else 'absent'] += 1
+                        if got or exp:
+                            nontriv += 1
+                        if (exp and os.path.realpath(exp)) != (got and os.path.realpath(got)):
+                            kind = 'finds-what-python-would-not' if got and not exp else ('misses-importable' if exp and not got else 'other-file')
+                            atoms.append({'sig': 'pathform:%s:%s' % (form, kind),
+                                          'msg': 'modname_to_modpath(%r, sys_path=%r) with cwd %s = %r, the import system finds %r there' % (
+                                              nm, entries, os.path.relpath(cwd, base), got, exp and os.path.relpath(exp, base))})
+            finally:
+                os.chdir(old_cwd)
+        seen = set()
+        uniq = []
+        for a in atoms:
+            if a['sig'] not in seen:
+                seen.add(a['sig'])
+                uniq.append(a)
+        return {'atoms': uniq, 'n': n, 'nontrivial': nontriv, 'outcomes': outcomes, 'case': {'tree': hist}}
+
+
 ODD = ['z__init__', 'y__main__', '__init__z', 'a']
 
 
@@ -394,5 +480,5 @@ class EditSpec(Spec):
 
 def specs(tier):
     if tier == 'thorough':
-        return [TreeSpec('trees-depth1', 1), TreeSpec('trees-depth2-wide', 2, wide=True), OddNameSpec('odd-names'), ShadowSpec(), EditSpec('edits<=3', 3)]
-    return [TreeSpec('trees-depth1', 1), TreeSpec('trees-depth2', 2), OddNameSpec('odd-names'), ShadowSpec(), EditSpec('edits<=2', 2)]
+        return [TreeSpec('trees-depth1', 1), TreeSpec('trees-depth2-wide', 2, wide=True), OddNameSpec('odd-names'), ShadowSpec(), EditSpec('edits<=3', 3), PathFormSpec('path-forms')]
+    return [TreeSpec('trees-depth1', 1), TreeSpec('trees-depth2', 2), OddNameSpec('odd-names'), ShadowSpec(), EditSpec('edits<=2', 2), PathFormSpec('path-forms')]
